@@ -46,28 +46,34 @@ Theorem C17_table :
 Proof. repeat split; [apply lookup_add|apply lookup_remove|apply nodup_add|apply nodup_remove]. Qed.
 
 (** Listing, full statement: feeding the listing back recreates every definition.
-    In the model of single-quote reading (no escape inside single quotes) the
+    The listing prints a value between double quotes when it holds a single quote
+    and nothing special inside double quotes, else between single quotes.  In the
+    model of quote reading (everything up to the next quote of that kind) the
     quoted word of a listing line reads back as the value exactly when the value
-    holds no single quote: *)
-Theorem C17_listing_iff : forall v rest, sq_read (v ++ c_sq :: rest) = Some (v, rest) <-> has_sq v = false.
-Proof. exact sq_read_iff. Qed.
+    is outside the class: a single quote together with one of double quote,
+    dollar, backquote, backslash. *)
+Theorem C17_listing_iff : forall v, read_listed v = Some (v, []) <-> Known_C17 v = false.
+Proof. exact read_listed_iff. Qed.
 
-Definition C17_listing_full : Prop := forall v rest, sq_read (v ++ c_sq :: rest) = Some (v, rest).
+Definition C17_listing_full : Prop := forall v, read_listed v = Some (v, []).
 Theorem C17_listing_refuted : ~ C17_listing_full.
 Proof.
-  intro H. specialize (H [105;116;39;115] []).   (* it's *)
-  apply (proj1 (sq_read_iff _ _)) in H. discriminate H.
+  intro H. specialize (H [105;116;39;115;34]).   (* it's followed by a double quote *)
+  apply (proj1 (read_listed_iff _)) in H. discriminate H.
 Qed.
 
 (** Listing, partial statement: for tables whose names are names and whose values
-    hold no single quote and no newline, the alias builtin fed the listing lines
-    (argument text name=, quote, value, quote -- as the tokenizer delivers it; unquote
-    behaving as stated) rebuilds the same map. *)
+    are outside the class and hold no newline, the alias builtin fed the listing
+    lines -- the argument delivered by the tokenizer either with its quotes and
+    untagged, or without them and tagged; unquote behaving as stated -- rebuilds
+    the same map. *)
 Theorem C17_listing : forall (unquote : str -> str),
   (forall n, is_name n = true -> unquote n = n) ->
   (forall v, has_sq v = false -> unquote (c_sq :: v ++ [c_sq]) = v) ->
+  (forall v, has_special v = false -> unquote (c_dq :: v ++ [c_dq]) = v) ->
+  forall (deliver : str -> str -> token), (forall n v, delivered n v (deliver n v)) ->
   forall t, NoDup (map fst t) -> listable t ->
-  forall m, lookup (relist unquote [] t) m = lookup t m.
+  forall m, lookup (relist unquote deliver [] t) m = lookup t m.
 Proof. exact relist_recreates. Qed.
 
 Check C17_once : forall (tokenize : str -> list token) t toks,
